@@ -19,15 +19,17 @@ impl V {
         self.d == 0
     }
 }
+// (wrapping arithmetic: inside the harness domains nothing wraps; it only keeps the definition
+// total on the out-of-domain values the symbolic executor considers on paths it later discards)
 fn gcd_small(mut a: i32, mut b: i32) -> i32 {
     if a < 0 {
-        a = -a;
+        a = a.wrapping_neg();
     }
     if b < 0 {
-        b = -b;
+        b = b.wrapping_neg();
     }
     while b != 0 {
-        let t = a % b;
+        let t = a.wrapping_rem(b);
         a = b;
         b = t;
     }
@@ -39,38 +41,41 @@ fn reduce(n: i32, d: i32) -> V {
         return V { n, d };
     }
     let g = gcd_small(n, d);
-    V { n: n / g, d: d / g }
+    if g == 0 {
+        return V { n, d };
+    }
+    V { n: n.wrapping_div(g), d: d.wrapping_div(g) }
 }
 pub fn v_add(a: V, b: V) -> V {
     if a.is_nan() || b.is_nan() {
         return NAN;
     }
     if a.d == 1 && b.d == 1 {
-        return vi(a.n + b.n);
+        return vi(a.n.wrapping_add(b.n));
     }
-    reduce(a.n * b.d + b.n * a.d, a.d * b.d)
+    reduce(a.n.wrapping_mul(b.d).wrapping_add(b.n.wrapping_mul(a.d)), a.d.wrapping_mul(b.d))
 }
 pub fn v_mul(a: V, b: V) -> V {
     if a.is_nan() || b.is_nan() {
         return NAN;
     }
     if a.d == 1 && b.d == 1 {
-        return vi(a.n * b.n);
+        return vi(a.n.wrapping_mul(b.n));
     }
-    reduce(a.n * b.n, a.d * b.d)
+    reduce(a.n.wrapping_mul(b.n), a.d.wrapping_mul(b.d))
 }
 pub fn v_neg(a: V) -> V {
     if a.is_nan() {
         return NAN;
     }
-    V { n: -a.n, d: a.d }
+    V { n: a.n.wrapping_neg(), d: a.d }
 }
 pub fn v_flip(a: V) -> V {
     if a.is_nan() || a.n == 0 {
         return NAN;
     }
     if a.n < 0 {
-        V { n: -a.d, d: -a.n }
+        V { n: a.d.wrapping_neg(), d: a.n.wrapping_neg() }
     } else {
         V { n: a.d, d: a.n }
     }
@@ -81,7 +86,7 @@ pub fn v_cmp_int(a: V, k: i32) -> i8 {
         return 2;
     }
     let l = a.n; // a.n / a.d  vs  k   <=>  a.n vs k * a.d   (a.d > 0)
-    let r = k * a.d;
+    let r = k.wrapping_mul(a.d);
     if l < r {
         -1
     } else if l == r {
